@@ -33,26 +33,18 @@ SPECIAL = "'\"" + WS
 
 # ---- spec helpers (work on symbolic and native strings) -------------------------------------------------------------
 
-def _re_token():
-    """the language of single non-space tokens of the documented lexer grammar, as a z3 regex"""
-    import z3
-    anyc = z3.AllChar(z3.ReSort(z3.StringSort()))
-    not_dq = z3.Diff(anyc, z3.Re('"'))
-    not_sq = z3.Diff(anyc, z3.Re("'"))
-    plain_c = anyc
-    for c in SPECIAL:
-        plain_c = z3.Diff(plain_c, z3.Re(c))
-    dq = z3.Concat(z3.Re('"'), z3.Star(not_dq), z3.Re('"'))
-    sq = z3.Concat(z3.Re("'"), z3.Star(not_sq), z3.Re("'"))
-    return z3.Union(dq, sq, z3.Plus(plain_c))
-
-
 def is_one_token(vc, q):
+    """q is a single non-space token of the documented lexer grammar: "[^"]*" | '[^']*' | [^'" \\r\\n\\t]+  (closed quotes)"""
     if vc.mode == "native":
         import re
         return re.fullmatch(r'"[^"]*"|\'[^\']*\'|[^\'" \r\n\t]+', q, re.S) is not None
-    import z3
-    return SBool(z3.InRe(q.t, _re_token()))
+    # the same language without regex operators (one disjunct per alternative of the grammar)
+    n = len_(q)
+    inner = q[1:n - 1]
+    plain = And(n > 0, *[Not(contains(q, c)) for c in SPECIAL])
+    dq = And(n >= 2, startswith(q, '"'), endswith(q, '"'), Not(contains(inner, '"')))
+    sq = And(n >= 2, startswith(q, "'"), endswith(q, "'"), Not(contains(inner, "'")))
+    return Or(plain, dq, sq)
 
 
 def spec_unquote(x):
@@ -101,16 +93,17 @@ def s_unquote(vc):
 
 # ---- T1: CommandManager.execute --------------------------------------------------------------------------------------
 
-def _parse_result(vc, value, space):
+def _parse_result(vc, value, space, k=0):
     import mitmproxy.types as T
     from mitmproxy.command import ParseResult
-    typ = T.Space if space else T.Unknown
+    # non-space tokens carry whatever parameter type the parser expected at that position
+    typ = T.Space if space else [T.Cmd, str, T.Unknown, T.Path, T.CmdArgs][k % 5]
     if vc.mode == "native":
         return ParseResult(value, typ, True)
     return vc.new("mitmproxy.command:ParseResult", value=value, type=vc.lift(typ), valid=True)
 
 
-SHAPES = [s for n in range(0, 5) for s in __import__("itertools").product("SN", repeat=n)]
+SHAPES = [s for n in range(0, 4) for s in __import__("itertools").product("SN", repeat=n)] + [tuple("NSNS"), tuple("SNSN"), tuple("NSNSN")]
 
 
 @scenario("execute", functions=[CM + ".execute", U])
@@ -118,7 +111,7 @@ def s_execute(vc):
     shape = vc.case("shape", SHAPES)
     vals = [vc.sym_str(f"tok{i}") for i in range(len(shape))]
     cmdstr = vc.sym_str("cmdstr")
-    parts = [_parse_result(vc, vals[i], shape[i] == "S") for i in range(len(shape))]
+    parts = [_parse_result(vc, vals[i], shape[i] == "S", shape[:i].count("N")) for i in range(len(shape))]
     calls = []
 
     def parse_partial(v, self_, s):
@@ -191,12 +184,21 @@ def _strings(maxlen, alphabet=ALPHABET):
 
 
 def _classify(kind, vals):
-    """known-finding class of an input (recorded in the failure so that only these classes are matched)"""
+    """known-finding class of an input; it is part of the check name, so a recorded class never hides failures outside it"""
+    cs = []
+    if any("\t" in v for v in vals):
+        cs.append("KF-C45-3")  # a tab inside an argument (pyparsing expands tabs before lexing)
     if kind in ("str", "strs", "bytes") and any("\\" in v for v in vals):
-        return "KF-C45-2:backslash-sequence-in-str-or-bytes-argument"
+        cs.append("KF-C45-2")  # backslash sequence in a str/bytes-typed argument
     if kind not in ("str", "strs", "bytes") and any("'" in v and '"' in v for v in vals):
-        return "KF-C45-1:both-quote-characters"
-    return "none"
+        cs.append("KF-C45-1")  # both quote characters, parameter type without escape decoding
+    if len(cs) > 1:
+        return None            # in two recorded classes at once: not evaluated (adds nothing, would blur the attribution)
+    return cs[0] if cs else ""
+
+
+def _chk(name, cls):
+    return name + ("/" + cls if cls else "")
 
 
 def bounded(tier, seed):
@@ -241,34 +243,38 @@ def bounded(tier, seed):
             cm.add(name, f)
 
         def run(kind, cmdname, vals, sep=" ", lead="", trail=""):
+            cls = _classify(kind, vals)
+            if cls is None:
+                return
             line = lead + cmdname + sep + sep.join(command_lexer.quote(v) for v in vals) + trail
             b.case((cmdname, tuple(vals), sep, lead, trail), nontrivial=any(command_lexer.quote(v) != v for v in vals))
-            inp = {"command": cmdname, "values": list(vals), "line": line, "class": _classify(kind, vals)}
+            inp = {"command": cmdname, "param_type": kind, "values": list(vals), "line": line}
             got.clear()
             try:
                 cm.execute(line)
             except Exception as e:
-                b.fail(f"execute.accepts[{kind}]", inp, f"raised {type(e).__name__}: {e}")
+                b.fail(_chk("execute.accepts", cls), inp, f"raised {type(e).__name__}: {e}")
                 return
             exp = tuple(v.encode("utf8") for v in vals) if kind == "bytes" else tuple(vals)
             if len(got) != 1:
-                b.fail(f"execute.called_once[{kind}]", inp, f"command called {len(got)} times")
+                b.fail(_chk("execute.called_once", cls), inp, f"command called {len(got)} times")
             elif len(got[0]) != len(exp):
-                b.fail(f"execute.split_at_unquoted_whitespace[{kind}]", inp, f"expected {len(exp)} arguments, command received {got[0]!r}")
+                b.fail(_chk("execute.split_at_unquoted_whitespace", cls), inp, f"expected {len(exp)} arguments, command received {got[0]!r}")
             elif got[0] != exp:
-                b.fail(f"execute.argument_unchanged[{kind}]", inp, f"expected {exp!r}, command received {got[0]!r}")
+                b.fail(_chk("execute.argument_unchanged", cls), inp, f"expected {exp!r}, command received {got[0]!r}")
 
         singles = list(_strings(single_len))
         for v in singles:
             q = command_lexer.quote(v)
             # (a) the real lexer sees one token, alone and in context
             b.case(("lex", v), nontrivial=q != v)
+            cls = "KF-C45-3" if "\t" in v else ""
             toks = list(command_lexer.expr.parse_string(q, parse_all=True))
             if toks != [q]:
-                b.fail("lexer.quote_is_one_token", {"value": v, "quoted": q, "class": "none"}, f"tokens {toks!r}")
-            toks = list(command_lexer.expr.parse_string("c " + q + "\tz", parse_all=True))
-            if toks != ["c", " ", q, "\t", "z"]:
-                b.fail("lexer.quote_is_one_token_in_context", {"value": v, "quoted": q, "class": "none"}, f"tokens {toks!r}")
+                b.fail(_chk("lexer.quote_is_one_token", cls), {"value": v, "quoted": q}, f"tokens {toks!r}")
+            toks = list(command_lexer.expr.parse_string("c " + q + "  z", parse_all=True))
+            if toks != ["c", " ", q, "  ", "z"]:
+                b.fail(_chk("lexer.quote_is_one_token_in_context", cls), {"value": v, "quoted": q}, f"tokens {toks!r}")
             for kind, cmdname in [("str", "t.str"), ("bytes", "t.bytes"), ("path", "t.path"), ("arg", "t.arg")]:
                 run(kind, cmdname, [v])
         pairs = list(_strings(multi_len))
@@ -297,7 +303,7 @@ def bounded(tier, seed):
             try:
                 cm.execute(line)
                 if got != [exp]:
-                    b.fail("execute.no_arguments", {"line": line, "class": "none"}, f"received {got!r}")
+                    b.fail("execute.no_arguments", {"line": line}, f"received {got!r}")
             except Exception as e:
-                b.fail("execute.no_arguments", {"line": line, "class": "none"}, f"raised {type(e).__name__}: {e}")
+                b.fail("execute.no_arguments", {"line": line}, f"raised {type(e).__name__}: {e}")
     return b
